@@ -72,6 +72,6 @@ RowBad == IF IsVal THEN ValBad ELSE {}
 TStep == /\ TNext
          /\ LET nb == RowBad IN
               /\ bad' = bad \cup {<<l, c>> : c \in nb}
-              /\ (nb = {} \/ Cardinality(bad) > 40 \/ PrintT(<<"VERIF_BAD", l, nb>>))
+              /\ (nb = {} \/ Cardinality(bad) > 2000 \/ PrintT(<<"VERIF_BAD", l, nb>>))
 TSpec == TInit /\ [][TStep]_<<l, bad>>
 =============================================================================
